@@ -20,8 +20,8 @@ def extras(chk, quick):
     rng = random.Random(chk.seed + 8)
     docs = S.corpus_sources()
     extra = list(docs) + S.regression_inputs(('C08', 'C09', 'C01'))
-    extra += S.mutations(rng, docs, 3 if quick else 40, NOIGN)
-    extra += S.random_strings(rng, S.ST, 300 if quick else 20000, 4, 25)
+    extra += S.mutations(rng, docs, 3 if quick else 12, NOIGN)
+    extra += S.random_strings(rng, S.ST, 300 if quick else 3000, 4, 25)
     return [s for s in extra if '\x00' not in s and '\x7f' not in s]
 
 
